@@ -477,17 +477,23 @@ class HyperbolicDrawing(Drawing):
                 "Drawing in model '{}' is not implemented".format(self.model)
             )
 
+    def _at_infinity(self, pt):
+        # the point at infinity of the half-plane, or an ideal point
+        # beyond the picture (its computed height is zero only up to
+        # roundoff, amplified by the chart). A finite vertex beyond the
+        # picture is an ordinary endpoint.
+        if np.isnan(pt).any():
+            return True
+        offscreen = (pt[0] < self.left_infinity or
+                     pt[0] > self.right_infinity)
+        return offscreen and abs(pt[1]) <= 1e-6 * (1 + pt[0]**2)
+
     def get_vertical_segment(self, endpts):
-        ordered_endpts = endpts[:]
-        if (np.isnan(endpts[0,0]) or
-            endpts[0, 0] < self.left_infinity or
-            endpts[0, 0] > self.right_infinity):
-            ordered_endpts = np.flip(endpts, axis=0)
+        ordered_endpts = np.array(endpts, dtype=float)
+        if self._at_infinity(ordered_endpts[0]):
+            ordered_endpts = np.flip(ordered_endpts, axis=0)
 
-        if (np.isnan(ordered_endpts[1, 0]) or
-            ordered_endpts[1, 0] < self.left_infinity or
-            ordered_endpts[1, 0] > self.right_infinity):
-
+        if self._at_infinity(ordered_endpts[1]):
             # the other endpoint is (effectively) at infinity: draw a
             # vertical ray. Otherwise keep both endpoints (a chord).
             ordered_endpts[1, 1] = self.up_infinity
